@@ -153,6 +153,7 @@ pub fn run(ctx: &mut Ctx) {
             match (a.het_table(), a.bet_table()) {
                 (Some(het), Some(bet)) => {
                     ctx.out.stat("c01.extended_tables.loaded");
+                    bet_cases(ctx, &a);
                     for f in &files {
                         match het.find_file(&f.name) {
                             None => ctx.out.oracle(false, "extended-table-lookup-misses-added-file", &format!("{desc} file={}", f.name)),
@@ -225,6 +226,7 @@ pub fn run(ctx: &mut Ctx) {
                     Ok(Err(e)) => ctx.out.oracle(false, "read-error-large", &format!("{desc} file={}: {e}", f.name)),
                 }
             }
+            if ver >= 2 { bet_cases(ctx, &a); }
             if ver >= 2 {
                 match (a.het_table(), a.bet_table()) {
                     (Some(het), Some(bet)) => for f in &files {
@@ -249,6 +251,7 @@ pub fn run(ctx: &mut Ctx) {
             let _ = std::fs::remove_file(&path);
         }
     }
+    bet_reader_cases(ctx, if ctx.thorough { 4000 } else { 400 });
     // many reads in one process: every archive stands alone, nothing the reader learnt or spent on earlier files
     // (budgets, caches) may make a later, well-formed file unreadable - more than 1 GiB is read back in total
     {
@@ -270,5 +273,45 @@ pub fn run(ctx: &mut Ctx) {
             ctx.out.oracle(bad.is_none(), "well-formed-archive-unreadable-after-many-reads", &format!("8 MiB sparse + 300 KB zlib file read {rounds} times in one process: {}", bad.unwrap_or_default()));
             ctx.out.stat("c01.soak");
         } else { ctx.out.stat("c01.soak_build_failed"); }
+    }
+}
+
+/// correspondence of the extended block table with Model.C01Bet: the builder's widths and packed table for the classic
+/// block entries, and the reader's view of every row
+pub fn bet_cases(ctx: &mut Ctx, a: &Archive) {
+    let (Some(bet), Some(bt)) = (a.bet_table(), a.block_table()) else { return; };
+    let h = &bet.header;
+    let n = h.file_count as usize;
+    if n == 0 || n > bt.entries().len() || bet.file_table.len() > 6000 { return; }
+    let rows: Vec<String> = bt.entries()[..n].iter().map(|e| format!("{},{},{},{}", e.file_pos, e.file_size, e.compressed_size, bet.file_flags.iter().position(|f| *f == e.flags).unwrap_or(0))).collect();
+    let (w0, w1, w2, w3, entry_bits) = (h.bit_count_file_pos, h.bit_count_file_size, h.bit_count_cmp_size, h.bit_count_flag_index, h.table_entry_size);
+    let lay = format!("{w0},{w1},{w2},{w3}");
+    let table = if bet.file_table.is_empty() { "-".to_string() } else { hex(&bet.file_table) };
+    ctx.out.case(&format!("c01bet {} {}", bet.file_flags.len(), rows.join(";")), &format!("{lay} {table}"));
+    for i in 0..n.min(12) {
+        let imp = match bet.get_file_info(i as u32) { Some(x) => format!("{},{},{},{}", x.file_pos, x.file_size, x.compressed_size, bet.file_flags.iter().position(|f| *f == x.flags).unwrap_or(0)), None => "none".into() };
+        ctx.out.case(&format!("c01betrow {lay} {table} {i}"), &imp);
+    }
+    ctx.out.stat(&format!("c01.bet.entry_bits.{}", match entry_bits { 0..=56 => "upto56", 57..=64 => "57to64", _ => "over64" }));
+}
+
+/// the reader on arbitrary tables: any widths (1..64 bits per column), any bytes, rows inside and outside the table
+pub fn bet_reader_cases(ctx: &mut Ctx, count: usize) {
+    use wow_mpq::tables::{BetHeader, BetTable};
+    for k in 0..count {
+        let rng = &mut ctx.rng;
+        let w: Vec<u32> = (0..4).map(|j| match (k + j) % 7 { 0 => rng.range(1, 8) as u32, 1 => rng.range(25, 33) as u32, 2 => rng.range(50, 65) as u32, 3 => 0, _ => rng.range(1, 40) as u32 }).collect();
+        let entry = w.iter().sum::<u32>();
+        let len = *rng.pick(&[0usize, 1, 7, 8, 9, 16, 24, 40]);
+        let table = rng.bytes(len);
+        let nfl = *rng.pick(&[1u32, 2, 4, 1000]);
+        let header = BetHeader { table_size: 0, file_count: u32::MAX, unknown_08: 0x10, table_entry_size: entry, bit_index_file_pos: 0, bit_index_file_size: w[0], bit_index_cmp_size: w[0] + w[1],
+            bit_index_flag_index: w[0] + w[1] + w[2], bit_index_unknown: entry, bit_count_file_pos: w[0], bit_count_file_size: w[1], bit_count_cmp_size: w[2], bit_count_flag_index: w[3], bit_count_unknown: 0,
+            total_bet_hash_size: 0, bet_hash_size_extra: 0, bet_hash_size: 0, bet_hash_array_size: 0, flag_count: nfl };
+        let bet = BetTable { header, file_flags: (0..nfl).collect(), file_table: table.clone(), bet_hashes: vec![] };
+        for i in [0u32, 1, 2, 5] {
+            let imp = match std::panic::catch_unwind(std::panic::AssertUnwindSafe(|| bet.get_file_info(i))) { Err(_) => "panic".to_string(), Ok(None) => "none".into(), Ok(Some(x)) => format!("{},{},{},{}", x.file_pos, x.file_size, x.compressed_size, x.flags) };
+            ctx.out.case(&format!("c01betrow {},{},{},{} {} {i} {nfl}", w[0], w[1], w[2], w[3], if table.is_empty() { "-".to_string() } else { hex(&table) }), &imp);
+        }
     }
 }
